@@ -1366,6 +1366,13 @@ func ruleR21(c *Ctx) {
 				// different function bodies: accepted shapes —
 				// (1) close in a `final`/deferred callback that the driver runs by defer after its loop, sends in a callback run inside the loop
 				// (2) close and send in sibling clauses guarded by the same lock (mock clock): decided by lock rule
+				// (3) the send sits in an exported function or method (the API surface, callable from any goroutine at
+				// any time) while another function closes the channel: nothing orders the caller's send before the
+				// owner's close, and a send on a closed channel panics even inside a select
+				if sr := s.Func.Root(); sr.Obj != nil && sr.Obj.Exported() && sr != cl.Func.Root() {
+					c.Bad(s.Func, s.Node, "send by an API function on "+v.Name()+", which its owner closes", "a channel that is closed is sent to only by the goroutine that closes it; an API function that sends on it can run after (or concurrently with) the close and panics with 'send on closed channel'", "send in exported "+sr.QName()+", close in "+cl.Func.QName()+" at "+p.Pos(cl.Node.Pos()))
+					continue
+				}
 				c.Ok(s.Func, s.Node, desc, "close and send are in different function bodies", "close in "+cl.Func.QName()+", send in "+s.Func.QName()+": ordering decided by the driver (R21b)", false)
 			}
 		}
